@@ -30,6 +30,8 @@ ASSUMPTIONS = [
     "a reader is a finite script of read events (a byte arrives / a read fails once with some io::ErrorKind) followed by end of file or by "
     "silence until the unit's gate is terminated; tokio's read_exact returns every error as is and loses the bytes of the interrupted read",
     "routecore's Message::from_octets returns (it is run on every frame, but its inside is not modelled); it only accepts type codes 0..6",
+    "routecore's accessors on a message that from_octets accepted return; VIOLATED by the OPEN capability iterator of routecore 0.5.1 on a Peer Up "
+    "with a truncated capability (known finding peerup-capability-panic, reproduced by a corpus case on every run)",
     "MessageType::Aborted is never produced (BmpState::_Aborted is never constructed in the code)",
     "frames that declare more than 1 MiB are not executed (bmp_read allocates the declared length before reading): noted, not run",
     "HashMap iteration order is arbitrary: id lists are compared as sorted lists of canonical names",
@@ -213,3 +215,62 @@ def classify(case, out):
     if out.strip() == "HUGE":
         ks.append("huge-skipped")
     return ks
+
+
+# ---------------------------------------------------------------- known finding: Peer Up with a truncated capability
+def stream_of_case(case):
+    s = Stream()
+    for op in case.split(";"):
+        t = op.split()
+        if len(t) == 2 and t[0] == "B":
+            s.add_hex(t[1])
+        elif len(t) == 2 and t[0] == "E":
+            s.add_err(t[1])
+    return s
+
+
+def open_caps_malformed(msg):
+    """msg: one BGP OPEN (19-byte header included). True iff a Capabilities parameter is not exactly tiled by
+    (code, length, value) triples - what routecore 0.5.1 CapabilitiesIter::next unwraps on."""
+    if len(msg) < 29 or msg[18] != 1:
+        return False
+    optlen = msg[28]
+    p, end = 29, min(len(msg), 29 + optlen)
+    while p + 2 <= end:
+        typ, ln = msg[p], msg[p + 1]
+        val = msg[p + 2:min(end, p + 2 + ln)]
+        if typ == 2:
+            q = 0
+            while q < len(val):
+                if q + 2 > len(val) or q + 2 + val[q + 1] > len(val):
+                    return True
+                q += 2 + val[q + 1]
+        p += 2 + ln
+    return False
+
+
+def peer_up_with_truncated_capability(frame):
+    if len(frame) < 6 + 42 + 20 + 19 or frame[0] != 3 or frame[5] != 3:
+        return False
+    p = 6 + 42 + 20
+    for _ in range(2):                      # sent OPEN, received OPEN
+        if p + 19 > len(frame):
+            return False
+        ln = int.from_bytes(frame[p + 16:p + 18], "big")
+        if ln < 19:
+            return False
+        if open_caps_malformed(frame[p:p + ln]):
+            return True
+        p += ln
+    return False
+
+
+def known_signature(k, engine, case, mo, spec, im):
+    """C06-peerup-capability-panic: the connection task panics inside routecore's OPEN capability iterator and the
+    stream contains a Peer Up Notification whose OPEN has a capability running past its parameter."""
+    if k.get("id") not in ("C06-peerup-capability-panic", "C07-peerup-capability-panic") or engine != "bstream":
+        return False
+    if not im.startswith("PANIC@routecore-0.5.1/src/bgp/message/open.rs:") or "PANIC" in spec:
+        return False
+    frames, _ = stream_of_case(case).walk(patch=False)
+    return any(peer_up_with_truncated_capability(f) for f in frames)
